@@ -9,6 +9,7 @@ import copy
 import json
 import os
 import random
+import re
 import time
 
 import lib
@@ -20,11 +21,12 @@ CLAUSES = ["Loud", "Spurious", "Conf", "Validate", "PermWarn", "Stable", "HandOv
            "Switches", "Report"]
 # the complete pipeline model over a product of all three files (Init of RmConf.tla)
 FULL = {"quick": ('YV = {"none", "one"}', 'PV = {"none", "rx1"}', 'LV = {"none", "one"}'),
-        "thorough": ('YV = {"none", "null", "two"}', 'PV = {"none", "one", "rx2", "rxextra"}', 'LV = {"none", "two"}')}
+        "thorough": ('YV = {"none", "null", "two"}', 'PV = {"none", "one", "rx2", "rxextra"}',
+                     'LV = {"none", "two", "trail"}')}
 # families of worlds emitted by RmConfMC: (name, cap on replayed worlds)
 FAMILIES = {"quick": [("prec", 1000), ("red", 700), ("con", 1100), ("leg", 1100)],
             "thorough": [("prec", 10 ** 7), ("red", 10 ** 7), ("con", 10 ** 7), ("leg", 10 ** 7)]}
-SIM = {"quick": (300, 300), "thorough": (6000, 6000)}          # (behaviours, cap)
+SIM = {"quick": (300, 300), "thorough": (20000, 20000)}          # (behaviours, cap)
 # the code-transcribed extraction: TLC must refute these invariants (family, invariant)
 REFUTE = [("leg", "I_CleanExact"), ("con", "I_CleanExact"), ("leg", "I_Function"), ("con", "I_ReportTotal"),
           ("leg", "I_Switches"), ("con", "I_EmptyIsNone")]
@@ -59,6 +61,7 @@ def cfg_text(module_spec, consts, invariants, emit):
     return "\n".join(lines) + "\n"
 
 
+_WHY = re.compile(r'\\"why\\":\\"([^"\\]*)\\"')
 NOV = ['YV = {"none"}', 'PV = {"none"}', 'LV = {"none"}']
 
 
@@ -92,7 +95,7 @@ def model_runs(tier, rng):
         return p
 
     jobs.append(("full", "RmConf", wr("RmConf_full.cfg", cfg_text("Spec", ['MECH = "intent"'] + list(FULL[tier]),
-                                                                  INVARIANTS, False)), dict(workers=2), None))
+                                                                  INVARIANTS, False)), dict(workers=2 if tier == "quick" else 4), None))
     for fam, cap in FAMILIES[tier]:
         jobs.append((fam, "RmConfMC", wr("RmConfMC_%s.cfg" % fam, mc_cfg(fam)), dict(workers=2, raw_cases=True), cap))
     num, cap = SIM[tier]
@@ -138,8 +141,15 @@ def model_runs(tier, rng):
             lines = sorted(set(r.cases))
             r.cases = []
             emitted[name] = len(lines)
-            if len(lines) > cap:
-                lines = rng.sample(lines, cap)
+            if len(lines) > cap:             # a VERIF_SEED sample, completed by one world per reason of rejection
+                keep = rng.sample(lines, cap)
+                have = set(_WHY.findall("".join(keep)))
+                for line in rng.sample(lines, len(lines)):
+                    y = _WHY.search(line).group(1)
+                    if y not in have:
+                        have.add(y)
+                        keep.append(line)
+                lines = keep
             for i, line in enumerate(lines):
                 c = lib.parse_case(line)
                 c["id"] = "%s#%d" % (name, i)
